@@ -297,6 +297,10 @@ def _helper_facts(chk, ctx) -> None:
 def run(chk, ctx) -> None:
     from .helpers import rotated_helper
     rotated_helper(chk, ctx, 'C20.order')
+    # amounts in the log text are numbers with thousands separators; a site hand is replayed with the defaults of a hand history
+    from .helpers import hand_history_defaults, parse_value_helper
+    parse_value_helper(chk, ctx, 'C20.conventions')
+    hand_history_defaults(chk, ctx, 'C20.conventions')
     _helper_facts(chk, ctx)
     prog = ctx.prog
     sev = SEval(prog)
